@@ -32,6 +32,8 @@ try:
         txt = open(f"{src}/demo/{f}", errors="replace").read()
         head = "\n".join(txt.split("\n")[:40])
         m = re.search(r"(?i)place this file at[^\n]*?:\s*\n?\s*(?://\s*)?([\w./-]+\.go)", head)
+        if not m:
+            m = re.search(r"(?i)place this file at[^\n]*\n(?:\s*//\s*\n)*\s*//\s*([\w./-]+\.go)", head)
         path = m.group(1) if m else None
         cm = re.search(r"(go test [^\n]+)", head)
         cmdline = cm.group(1).strip() if cm else None
